@@ -1,4 +1,5 @@
 import Txtpp.Lemmas.SinkFacts
+import Txtpp.Lemmas.ProjectFacts
 /-!
 # Property C10 — txtpp only ever writes its own outputs and temp targets
 -/
@@ -12,6 +13,11 @@ the real run; it is extended only by writes/removals of the output path and of r
 targets.) -/
 theorem untouched_unchanged (cfg : Cfg) (fs : FS) (src : Path) (first : Bool) :
     Untouched fs (runPass cfg fs src first).2 := runPass_untouched cfg fs src first
+
+/-- … and for the complete run (input resolution, scanning, every pass of every file the coordinator
+schedules), in every mode and whatever the verdict -/
+theorem whole_run_untouched_unchanged (cfg : Cfg) (fs : FS) (inputs : List (List Char)) :
+    Untouched fs (runProject cfg fs inputs).2 := runProject_untouched cfg fs inputs
 
 /-- vocabulary commands never change a file -/
 theorem commands_change_no_file (cfg : Cfg) (wd : Path) (src : List Char) (fs : FS) (acts : List (List Char × List Char))
